@@ -528,7 +528,14 @@ func (s *scope) Close() error {
 	close(s.done)
 
 	if s.root {
+		// n.b. Wait for the report loop to exit so that the final report below
+		//      is the last one and does not overlap a periodic one; only then
+		//      drop the (reported) scopes.
+		s.wg.Wait()
 		s.reportRegistry()
+		if s.reporter != nil || s.cachedReporter != nil {
+			s.registry.purgeIfRootClosed()
+		}
 		if closer, ok := s.baseReporter.(io.Closer); ok {
 			return closer.Close()
 		}
